@@ -118,7 +118,7 @@ def cmd_run(pid, tier):
     shutil.rmtree(rundir, ignore_errors=True)
     os.makedirs(rundir, exist_ok=True)
     log = open(os.path.join(rundir, "driver.log"), "w")
-    evidence_path = os.path.join(ROOT, "evidence", pid + ".json")
+    evidence_path = os.path.join(os.environ.get("VERIF_EVIDENCE_DIR") or os.path.join(ROOT, "evidence"), pid + ".json")
     os.makedirs(os.path.dirname(evidence_path), exist_ok=True)
 
     binary, msg = build(pid, log)
